@@ -11,13 +11,19 @@ Definition is_dependent (ins : list input) (k : pkey) : bool := existsb (fun i =
 Definition has_job (j : qjob) (l : list qjob) : bool :=
   existsb (fun x => match x, j with JReconcile, JReconcile | JMap, JMap => true | _, _ => false end) l.
 
+Definition count_job (j : qjob) (l : list qjob) : nat :=
+  length (filter (fun x => match x, j with JReconcile, JReconcile | JMap, JMap => true | _, _ => false end) l).
+
 Definition trow_ok (r : trow) : bool :=
   let '(is_q, ins, k, v, woke, nrec, nmap) := r in
   if is_q then
     let jobs := if is_dependent ins k then q_jobs ins k v else [] in
-    (* the queue coalesces identical jobs: at most one reconcile and one map job per key *)
-    Nat.eqb nrec (if has_job JReconcile jobs then 1 else 0) &&
-    Nat.eqb nmap (if has_job JMap jobs then 1 else 0)
+    (* one Put per input on the (namespace,type) and per trigger; the queue coalesces identical jobs that are put before a
+       worker takes the first, so between one run and one run per Put - and none when no input asks for the job *)
+    (* the controller is listed once per matching input (by kind and by id), and triggered once per listing *)
+    let d := length (filter (fun i => input_matches i k) ins) in
+    let in_range n j := if has_job j jobs then Nat.leb 1 n && Nat.leb n (d * count_job j jobs) else Nat.eqb n 0 in
+    in_range nrec JReconcile && in_range nmap JMap
   else Bool.eqb woke (r_trigger ins k v).
 
 Fixpoint mism_from {A} (chk : A -> bool) (i : N) (cs : list A) : list N :=
